@@ -19,7 +19,8 @@ def _decode_chunk(args):
     proto, items = args
     out = []
     for cid, typ, payload, tag in items:
-        out.append({"id": cid, "proto": proto, "type": typ, "payload": payload, "obs": codec.decode(proto, typ, payload), "tag": tag})
+        out.append({"id": cid, "proto": proto, "type": typ, "payload": payload, "obs": codec.decode(proto, typ, payload), "tag": tag,
+                    "must": tag.endswith("!must")})
     return out
 
 
@@ -27,7 +28,7 @@ def _judge_chunk(args):
     k, cases = args
     os.makedirs(lib.SCRATCH, exist_ok=True)
     path = os.path.join(lib.SCRATCH, f"dec_{os.getpid()}_{k}_{int(time.time() * 1000) % 100000}.json")
-    slim = [{"id": c["id"], "proto": c["proto"], "type": c["type"], "payload": c["payload"], "obs": c["obs"]} for c in cases]
+    slim = [{"id": c["id"], "proto": c["proto"], "type": c["type"], "payload": c["payload"], "obs": c["obs"], "must": c.get("must", False)} for c in cases]
     with open(path, "w") as f:
         json.dump({"traces": slim}, f, separators=(",", ":"))
     try:
@@ -42,6 +43,13 @@ def _judge_chunk(args):
         return k, None, r.out[-2500:], 0, 0
     bad = {v[1]: v[2][0][0] for v in r.prints("VERDICT")}
     return k, bad, "", tot[0][3], r.distinct
+
+
+def must(items):
+    """Cases built only from documented values (and, AT5, strides >= the known layout with arbitrary
+    tail bytes): the statement's stride clause requires them to be decoded, not rejected."""
+    for kind, typ, payload, tag in items:
+        yield kind, typ, payload, tag + "!must"
 
 
 def decode_and_judge(rep, proto, items, label):
@@ -110,7 +118,7 @@ def check_c05(rep):
     rng = random.Random(lib.seed())
     for proto in ("at4", "at5"):
         decode_and_judge(rep, proto, GM.byte_sweep(proto), "every byte position x 256 values of every base payload")
-        decode_and_judge(rep, proto, GM.count_sweep(proto), "record counts 0..16, announced strides, ability formats")
+        decode_and_judge(rep, proto, must(GM.count_sweep(proto)), "record counts 0..16, announced strides (zero and arbitrary tail bytes), ability formats; must be decoded")
         decode_and_judge(rep, proto, GM.field_cross(proto), "cross product of documented power x mode x fan x flags")
         decode_and_judge(rep, proto, GM.temperature_codes(proto), "all 2048 temperature codes and set-point codes")
         decode_and_judge(rep, proto, GM.pair_sweep(proto, rng, per_pair=400 if q else None,
